@@ -85,7 +85,7 @@ CHECKS = {
          "Exact capacity values are unspecified (only capacity >= len); depth bound; 79 k states quick / 800 k thorough."),
  "C16": ("4/C16",
          "stateless model checking of the real List/ErasedList/RawList code: controlled scheduler over real OS threads, all interleavings up to a preemption bound at lock-acquisition / element-pointer-use granularity (exact blocking via try_lock probe), with stale-pointer, lockset, deadlock and brute-force linearizability oracles",
-         "All programs of 2 threads x 2 operations over a 10-operation menu (thorough: 17 operations unbounded, plus 2x3 and 3x2 shapes at bound 3) on two colliding lists, one pre-filled to capacity so that a push relocates, in both address orders of the two lists; for each program EVERY schedule with at most 2 preemptions is executed on the real code. Each execution is checked for use of an element pointer whose buffer generation changed (deterministic use-after-free detector), element reads outside the critical section (lockset probe), deadlock (no enabled thread), linearizability of the recorded call/return history against the Vec model (brute force) and final contents.",
+         "All programs of 2 threads x 2 operations over a 10-operation menu (thorough: 17 operations unbounded, plus 2x3 and 3x2 shapes at bound 3) on two colliding lists, one pre-filled to capacity so that a push relocates, in both address orders of the two lists; for each program EVERY schedule with at most 2 preemptions is executed on the real code. Each execution is checked for use of an element pointer whose buffer generation changed (deterministic use-after-free detector), element reads outside the critical section (lockset probe), deadlock (no enabled thread), linearizability of the recorded call/return history against the Vec model (brute force) and final contents. Nested family: two List<List<u64>> whose five inner lists are shared too (element clone / drop / == take locks of their own), all 2x2 programs over a 7-operation menu (thorough 13) in both address orders of the outer lists, same oracles with a model of five inner vectors and two vectors of handles.",
          "Schedule points exist only where hook lines are (a lint fails the check with exit 2 when a .lock() in list.rs has no hook line before it); sequentially consistent interleavings only (no weak-memory effects); Arc reference counting trusted. Two threads wrongly admitted into one critical section (a lock that became shared) never overlap under a lock-granularity scheduler: for that class only, a supplementary free-running pass (28 cases x 4 unscheduled OS threads, invariants of every linearizable execution; sampling, labelled exhaustive=false, not counted in states) runs after the exhaustive part."),
 }
 
